@@ -329,12 +329,15 @@ func (w *world) opReopenFaulty() {
 	}
 	w.dropHeld("close")
 	w.q.Close()
+	w.closedAfterReset()
+	w.nextPageSize()
 	pf := &pageFault{ctor: kind, fired: map[string]int{}}
 	armFault(pf)
-	q, err := queue.NewQueue(w.dir, 0)
+	q, err := queue.NewQueue(w.dir, w.pageSize)
 	armFault(nil)
 	if err == nil {
 		w.q = q
+		w.opened()
 		if pf.total() > 0 {
 			w.classes["open-succeeded-despite-factory-failure"]++
 		}
